@@ -52,10 +52,14 @@ type Cfg struct {
 	// space), with Long >= 2 also 255, 256 and 300 (where the length prefix of CBOR
 	// and UBJSON changes width); Long 3: lengths equal to UBJSON marker bytes; Long 4:
 	// 1 KiB / 4 KiB boundaries. First byte symbolic, the rest a fixed pattern.
-	Long  int
-	nodes int
-	h     *rt.H
-	seq   int
+	Long int
+	// Special: strings and keys may also be one of a fixed set of texts that encoders
+	// and parsers treat specially (line/paragraph separators, HTML characters, DEL,
+	// multi-byte runes of every length, an escape-like text, invalid UTF-8 unless ASCII)
+	Special bool
+	nodes   int
+	h       *rt.H
+	seq     int
 }
 
 func (c *Cfg) name(s string) string {
@@ -86,7 +90,18 @@ func Value(h *rt.H, c *Cfg) *Node {
 	return n
 }
 
+var specialStrings = []string{"\u2028", "a\u2029b", "<&>", "\x7f", "\u00e9", "\u20ac", "\U0001F600", "\\u0041", "a\"b\\", "\t\n", "\xc0\x80", "\xff"}
+
 func (c *Cfg) str(what string) []byte {
+	if c.Special {
+		n := len(specialStrings)
+		if c.ASCII || c.Small {
+			n -= 2 // without the invalid UTF-8 ones
+		}
+		if i := c.h.Choose(what+"special", 0, n); i > 0 {
+			return []byte(specialStrings[i-1])
+		}
+	}
 	if c.Long > 0 {
 		lens := []int{0, 63, 64, 65, 66, 130, 255, 256, 300}
 		max := 5
@@ -353,10 +368,23 @@ func jsonStr(h *rt.H, o JSONOpts, body []byte, out []byte) []byte {
 	case 3:
 		out = append(out, '\\', 'u', '0', '0', '4', '1')
 	}
+	const hex = "0123456789abcdef"
 	for _, c := range body {
-		h.Assume(c >= 0x20 && c < 0x7f && c != '"' && c != '\\')
+		if !h.Concrete(c) {
+			h.Assume(c >= 0x20 && c < 0x7f && c != '"' && c != '\\')
+			out = append(out, c)
+			continue
+		}
+		// fixed text (Cfg.Special): escaped as RFC 8259 requires, everything else raw
+		switch {
+		case c == '"' || c == '\\':
+			out = append(out, '\\', c)
+		case c < 0x20:
+			out = append(out, '\\', 'u', '0', '0', hex[c>>4], hex[c&15])
+		default:
+			out = append(out, c)
+		}
 	}
-	out = append(out, body...)
 	if o.Esc == 2 {
 		out = append(out, '\\', '\\')
 	}
